@@ -1151,6 +1151,11 @@ def run(ck: Check) -> None:
     ck.assumptions.append("end to end: the documents are the family of vlib/props/c13_e2e.py (nullable type lists / anyOf / oneOf with null over scalars, free-form and typed containers, references; alone, as union alternatives, as items / values; JSON Schema and OpenAPI 3.1; 4 model kinds); the stage-1 trees are read at the end of the real parse_raw()")
     c13_e2e.campaign_e2e(ck, 25 if quick else 300)
     ck.search_hooks.append(lambda ck: c13_e2e.campaign_e2e(ck, 150, fork="e2e-search", label="search"))
+    from . import c13_bridge
+
+    ck.assumptions.append("composition with C03's stage 1: class names are a parameter of Model.TreeBridge.toDT (position tokens, mapped to the names the real parser chose); const and constrained scalar types (call syntax) are outside the bridge")
+    c13_bridge.campaign_bridge(ck, 30 if quick else 400)
+    ck.search_hooks.append(c13_bridge.search)
     ck.search_hooks.append(search_from_disagreements)
     ck.search_hooks.append(search_trees)
     known_findings(ck)
